@@ -316,6 +316,103 @@ def immutable_case(ctx, i, terms, info):
         info.append(case)
 
 
+LEGACY_NAMES = ["e\u0301", "cafe\u0301.txt", "\u212b", "A\u030a", "\u00c5", "\u1112\u1161\u11ab", "\ud55c", "a\u0301\u0323", "q\u0307\u0323",
+                "n\u0303o", "\u00f1o", "\u2126", "\uf900", "o\u0323\u0308", "plain", "x", "\u0958", "\u1100\u1161"]
+
+
+def legacy_case(ctx, i, terms, info):
+    """A directory as an older or foreign writer left it: entries assembled byte by byte (own netstrings, own AES/HMAC),
+    in any order, with names that are NOT in NFC.  _unpack_contents must hand out NFC names, and the children must be
+    reachable through the API and the modifiers by their NFC names."""
+    r = ctx.rng("legacy", i)
+    tbl = D.CapTable()
+    nm, store = D.make_nodemaker(r)
+    wk, fp = D.rb(r, 16), D.rb(r, 32)
+    dn = D.dir_from_writekey(nm, wk, fp, mdmf=r.random() < 0.3)
+    dnro = nm.create_from_cap(dn.get_readonly_uri())
+    names = r.sample(LEGACY_NAMES, r.choice([1, 2, 3, 4, 5]))
+    r.shuffle(names)
+    entries = []
+    spec = []
+    for namex in names:
+        for _ in range(20):
+            w, ro, label = D.gen_child_caps(r, tbl, allow_odd=False)
+            n = nm.create_from_cap(w, ro)
+            if getattr(n, "error", None) is None:
+                break
+        obs = D.node_obs(n)
+        rw, rof = obs[1] or b"", D.strip_prefix_expected(obs[2] or b"", False)
+        md = D.gen_metadata(r, ascii_only=True, allow_tahoe=False)     # a non-dict 'tahoe' entry makes update_metadata raise TypeError
+        md.pop("no-write", None)
+        if r.random() < 0.3:
+            md["tahoe"] = {"linkcrtime": 3, "linkmotime": 4}
+        salt = D.rwcap_salt(rw)
+        key = D.rwcap_key(salt, wk)
+        ct = D.aes_ctr(key, rw)
+        rwc = salt + ct + D.hmac_sha256_tahoe(key, salt + ct)
+        entries.append(D.ns(D.ns(namex.encode("utf-8")) + D.ns(rof) + D.ns(rwc) + D.ns(dumps_md(md))))
+        spec.append((namex, obs, md, w, ro, key, rw))
+    data = b"".join(entries)
+    store[dn._node.get_storage_index()] = data
+    want = {}
+    for namex, obs, md, w, ro, key, rw in spec:
+        want[D.nfc(namex)] = (obs, md)                 # stored order, the later entry wins
+    case = {"stream": "legacy", "index": i, "stored_names": names, "data": data}
+    changed = [n for n in names if D.nfc(n) != n]
+    ctx.case(("l", tuple(names), data) if changed else None, kind="legacy:%d-entries" % len(names))
+    ctx.count("legacy-names-not-nfc", len(changed))
+    children = D.fire(dn.list())
+    children_ro = dnro._unpack_contents(data)
+    for view_name, ch in (("write cap", children), ("read cap", children_ro)):
+        not_nfc = [n for n in ch if D.nfc(n) != n]
+        if not_nfc:
+            ctx.oracle_fail("legacy-unpack-name-not-normalized", "unpacking (through the %s) a stored directory whose names are not NFC "
+                            "hands out the raw name(s) %r" % (view_name, not_nfc), case=case, expected=sorted(want), observed=sorted(ch))
+        elif set(ch) != set(want):
+            ctx.oracle_fail("legacy-unpack-names-differ", "names of a legacy directory (through the %s) are not the NFC forms of the stored names" % view_name,
+                            case=case, expected=sorted(want), observed=sorted(ch))
+    for name in sorted(set(children) & set(want)):
+        o1 = D.node_obs(children[name][0])
+        if o1 != want[name][0] or children[name][1] != want[name][1]:
+            ctx.oracle_fail("legacy-unpack-child-differs", "child %r of a legacy directory is not the stored (later) entry" % (name,), case=case,
+                            expected=want[name], observed=[o1, children[name][1]])
+    # ---- model: the same bytes through the model's reader (NFC supplied as a table)
+    if i < ctx.n(12, 200):
+        nrm = "(normalize_tbl [%s])" % "; ".join("(%s, %s)" % (D.B(n.encode("utf-8")), D.B(D.nfc(n).encode("utf-8"))) for n in names if D.nfc(n) != n)
+        used = set()
+        for s_ in spec:
+            used.update(x for x in (s_[3], s_[4]) if x)
+        aes = "(aes_tbl [%s])" % "; ".join("(%s, %s)" % (D.B(k), D.B(D.aes_ctr(k, b"\0" * len(rw)))) for k, rw in {s_[5]: s_[6] for s_ in spec}.items())
+        t = ("let cls := %s in let nrm := %s in let aes := %s in "
+             "match unpack_contents cls nrm bytes loads_raw aes true true %s %s with inr ch => view_eqb (view bytes ch) %s | inl _ => false end && "
+             "match unpack_contents cls nrm bytes loads_raw aes false true [] %s with inr ch => view_eqb (view bytes ch) %s | inl _ => false end"
+             % (tbl.coq(used), nrm, aes, D.B(wk), D.B(data), coq_view(children), D.B(data), coq_view(children_ro)))
+        terms.append(t)
+        info.append(case)
+    # ---- the children are reachable by their NFC names: get, set_metadata_for, delete
+    for name in sorted(want):
+        got = D.outcome(D_call(lambda: dn.get(name)))
+        if got[0] != "ok" or D.node_obs(got[1]) != want[name][0]:
+            ctx.oracle_fail("legacy-child-not-reachable-by-nfc-name", "get(%r) on a legacy directory: %r" % (name, got[1] if got[0] == "err" else "a different node"),
+                            case=dict(case, name=name, op="get"), expected=want[name][0], observed=repr(got[1]))
+            continue
+        res = D.outcome(D_call(lambda: dn.set_metadata_for(name, {"k": 1})))
+        md_after = D.fire(dn.list()).get(name, (None, {}))[1]
+        if res[0] != "ok" or md_after.get("k") != 1:
+            ctx.oracle_fail("legacy-child-not-reachable-by-nfc-name", "set_metadata_for(%r) on a legacy directory: %r" % (name, res[1]),
+                            case=dict(case, name=name, op="set_metadata_for"), expected="metadata set", observed=repr(res[1]))
+        res = D.outcome(D_call(lambda: dn.delete(name)))
+        left = D.fire(dn.list())
+        if res[0] != "ok" or name in left or any(D.nfc(x) == name for x in left):
+            ctx.oracle_fail("legacy-child-not-reachable-by-nfc-name", "delete(%r) on a legacy directory: %r, still listed: %r" % (name, res[1], sorted(left)),
+                            case=dict(case, name=name, op="delete"), expected="entry removed", observed=repr(res[1]))
+
+
+def D_call(f):
+    from twisted.internet import defer
+    return defer.maybeDeferred(f)
+
+
 def refuted_witnesses(ctx):
     """The recorded examples of Props/C19.v on the implementation: they must still behave as recorded."""
     from allmydata import dirnode
@@ -363,6 +460,7 @@ def run(ctx):
     ctx.correspondence("pack-unpack-model-vs-dirnode")
     ctx.correspondence("immutable-pack-model-vs-dirnode")
     ctx.correspondence("recorded-refuted-examples")
+    ctx.correspondence("legacy-unpack-model-vs-dirnode")
     terms, info = [], []
     for i in range(ctx.n(220, 2500)):
         mutable_case(ctx, i, terms, info)
@@ -371,10 +469,13 @@ def run(ctx):
     nmut = len(terms)
     for i in range(ctx.n(90, 900)):
         immutable_case(ctx, i, terms, info)
+    nimm = len(terms)
+    for i in range(ctx.n(45, 600)):
+        legacy_case(ctx, i, terms, info)
     refuted_witnesses(ctx)
     bad = ctx.coq_check(IMPORTS, terms, preamble=PREAMBLE, tag="c19", shard=max(18, (len(terms) + 6) // 7))
     for ix in bad:
-        corr = "pack-unpack-model-vs-dirnode" if ix < nmut else "immutable-pack-model-vs-dirnode"
+        corr = "pack-unpack-model-vs-dirnode" if ix < nmut else ("immutable-pack-model-vs-dirnode" if ix < nimm else "legacy-unpack-model-vs-dirnode")
         ctx.mismatch("model-vs-impl:" + info[ix]["stream"], "Coq model of pack/unpack and dirnode.py differ on this directory",
                      case=info[ix], correspondence=corr)
     ctx.trace(len(terms) - len(bad))
@@ -389,6 +490,8 @@ def replay(ctx, rec):
         mutable_case(ctx, i, terms, info, outside=(stream == "outside"))
     elif stream == "imm":
         immutable_case(ctx, i, terms, info)
+    elif stream == "legacy":
+        legacy_case(ctx, i, terms, info)
     else:
         return {"note": "record carries no generated case"}
     bad = ctx.coq_check(IMPORTS, terms, preamble=PREAMBLE, tag="c19replay")
